@@ -36,13 +36,19 @@ class Realiser:
 
     def records(self, kinds):
         out = []; ci = 0; pi = 0
-        for k in kinds:
+        for k0 in kinds:
+            k = k0[:-1] if k0 in ("hdrN", "certN", "pubN", "sigN") else k0
+            mark = len(out)
             if k == "hdr": out.append(pubfile.header(created=1500000000 + self.rng.randrange(1000)))
             elif k == "cert": out.append(pubfile.cert_record(self.certs[ci % len(self.certs)])); ci += 1
             elif k == "pub": out.append(pubfile.pub_record(1400000000 + 1000 * pi, ksi.fake_imprint(1, b"p%d" % pi), refs=[b"ref"] if pi % 2 else [])); pi += 1
             elif k == "sig": out.append(None)
             elif k == "unkC": out.append(ksi.tlv(self.rng.choice([0x0705, 0x0700, 0x05, 0x1fff]), b"zz"))
             elif k == "unkN": out.append(ksi.tlv(self.rng.choice([0x0705, 0x0700, 0x05, 0x1fff]), b"zz", nc=True))
+            if k0 != k and out[mark] is not None:
+                out[mark] = bytes([out[mark][0] | 0x40]) + out[mark][1:]          # the same record with the non-critical flag set in its header
+            elif k0 == "sigN":
+                out[mark] = "sigN"
         return out
 
     def magic(self, m):
@@ -54,16 +60,19 @@ def structure(chk, exe, cases, R, w):
     ctx = "CTX %s %s %s" % (w.ca_pem, pubfile.E_OID, pubfile.EMAIL.encode().hex())
     for c in cases:
         kinds = c["case"]["recs"]; recs = R.records(kinds)
-        raw = R.magic(c["case"]["magic"]) + b"".join(pubfile.sig_record(R.dummy_p7) if r is None else r for r in recs)
+        flag = lambda b: bytes([b[0] | 0x40]) + b[1:]
+        sigrec = lambda r, p7: flag(pubfile.sig_record(p7)) if r == "sigN" else pubfile.sig_record(p7)
+        raw = R.magic(c["case"]["magic"]) + b"".join(sigrec(r, R.dummy_p7) if (r is None or r == "sigN") else r for r in recs)
         if not raw:
             continue
         exp_signed = None
         if c["accept"]:
             exp_signed = 8 + sum(len(r) for r in recs[:c["signed"]])
+            last = recs[c["signed"]]
         lines.append("PARSE " + raw.hex()); meta.append((c, raw, exp_signed, None))
         if c["accept"]:            # sign exactly the spec's range: the file must verify
             pre = pubfile.MAGIC + b"".join(recs[:c["signed"]])
-            real = pre + pubfile.sig_record(w.p7(pre))
+            real = pre + sigrec(last, w.p7(pre))
             lines.append(ctx); meta.append(None)
             lines.append("VERIFY " + real.hex()); meta.append((c, real, None, "verify"))
     outs, crashes = vlib.run_lines(exe, lines)
